@@ -2,7 +2,7 @@
 # usage: tryseed.sh <seed-id> [Cxx ...]   — run checks against a seeded change in a scratch worktree (dev aid)
 # (the recorded sweep in seeded/RESULTS.md applies each patch to /repo itself: tools/sweep_seeds.sh)
 SEED=$1; shift
-WT=/tmp/seedtest
+WT=/tmp/seedtry
 [ -d $WT ] || git -C /repo worktree add -q --detach $WT HEAD
 git -C $WT checkout -q -- . ; git -C $WT checkout -q --detach main
 git -C $WT apply /verif/seeded/$SEED/patch.diff || exit 9
